@@ -206,12 +206,24 @@ PhaseObs ==
     /\ LET o == E.obs
            okNodes == ToSet(o.nodes) = Keys /\ Len(o.nodes) = Cardinality(Keys)
            okCps == o.just = <<just.epoch, just.root>> /\ o.fin = <<fin.epoch, fin.root>> /\ o.pin = pin
-           okHead == o.hashead = 0 \/ <<B(o.head[1]), <<o.head[2], o.head[3]>>>> = HeadOf(Ctx)
-       IN IF okNodes /\ okCps /\ okHead
+           c == Ctx
+           okHead == o.hashead = 0 \/ <<B(o.head[1]), <<o.head[2], o.head[3]>>>> = HeadOf(c)
+           \* internal node table (verif hook), logged when Head() succeeded: the weight of every node that has a
+           \* fork-choice parent, and every best-child / best-descendant link, as the specification defines them
+           ExpRow(i) == LET ch == {k \in c.kids[i] : c.leads[k]}
+                            bc == IF ch = {} THEN NoRef ELSE KeyI(BestOfI(c, ch))
+                            g == GhostI(c, i)
+                            bd == IF g = i THEN NoRef ELSE KeyI(g)
+                        IN <<nodes[i].root, nodes[i].slot, IF c.fpar[i] # 0 THEN c.w[i] ELSE 0, bc[1], bc[2], bd[1], bd[2]>>
+           GotRow(r) == <<r[1], r[2], IF r[8] = 1 THEN r[3] ELSE 0, r[4], r[5], r[6], r[7]>>
+           okTable == o.table = <<>> \/ (Len(o.table) = N /\ \A i \in Idx : GotRow(o.table[i]) = ExpRow(i))
+       IN IF okNodes /\ okCps /\ okHead /\ ~okTable
+          THEN Mismatch("node table after Head", [i \in Idx |-> ExpRow(i)], o.table) /\ Fail
+          ELSE IF okNodes /\ okCps /\ okHead
           THEN Advance /\ UNCHANGED <<nodes, votes, bal, just, fin, pin, detached, poison, nilsink>>
           ELSE /\ IF ~okNodes THEN Mismatch("nodes after call", Keys, o.nodes)
                   ELSE IF ~okCps THEN Mismatch("checkpoints after call", <<just, fin, pin>>, <<o.just, o.fin, o.pin>>)
-                  ELSE Mismatch("head after call", HeadOf(Ctx), o.head)
+                  ELSE Mismatch("head after call", HeadOf(c), o.head)
                /\ Fail
 
 TraceNext ==
